@@ -36,8 +36,17 @@ Definition b64_ge0 (f : binary64) : bool :=
   | B754_nan _ _ _ _ _ => false
   end.
 
-(* oasis_write_real on the bit pattern of the double.  little_endian_swap64 is the identity on a
-   little-endian host: the 8 bytes written are the little-endian bytes of the pattern. *)
+(* `a == b` on doubles (false when either is NaN, true for -0.0 == 0.0) *)
+Definition b64_eqb (a b : binary64) : bool :=
+  match b64_compare a b with Some Eq => true | _ => false end.
+
+(* oasis_write_real on the bit pattern of the double:
+     integer-valued and |value| < 2^64                       -> types 0 / 1 with the magnitude
+     inverse = 1.0 / value integer-valued, |inverse| < 2^64
+        and 1.0 / inverse == value                           -> types 2 / 3 with |inverse|
+     otherwise                                               -> type 7 and the 8 bytes
+   little_endian_swap64 is the identity on a little-endian host: the 8 bytes written are the
+   little-endian bytes of the pattern. *)
 Definition enc_real (bits : N) : list N :=
   let value := b64_of_bits (Z.of_N bits) in
   match int_magnitude_lt64 value with
@@ -45,7 +54,10 @@ Definition enc_real (bits : N) : list N :=
   | None =>
       let inverse := b64_div mode_NE b64_one value in
       match int_magnitude_lt64 inverse with
-      | Some v => (if b64_ge0 inverse then 2%N else 3%N) :: enc_uint (Z.to_N v)
+      | Some v =>
+          if b64_eqb (b64_div mode_NE b64_one inverse) value
+          then (if b64_ge0 inverse then 2%N else 3%N) :: enc_uint (Z.to_N v)
+          else 7%N :: bytes_le 8 bits
       | None => 7%N :: bytes_le 8 bits
       end
   end.
